@@ -26,4 +26,9 @@ for bid in ids:
 subprocess.run(['git', '-C', '/repo', 'worktree', 'remove', '--force', WT], capture_output=True)
 subprocess.run(['git', '-C', '/repo', 'worktree', 'prune'], capture_output=True)
 subprocess.run(['git', '-C', V, 'checkout', '--', 'evidence'], capture_output=True)     # evidence belongs to runs on the unchanged tree
-json.dump(out, open(V + '/benign/REGRESSION.json', 'w'), indent=1)
+try:
+    prev = json.load(open(V + '/benign/REGRESSION.json')) if sys.argv[1:] else {}
+except Exception:
+    prev = {}
+prev.update(out)
+json.dump(prev, open(V + '/benign/REGRESSION.json', 'w'), indent=1, sort_keys=True)
